@@ -172,7 +172,7 @@ fn tags_from_language(language: &Language, tags: &mut ThreeTags) {
             idx -= 1;
         }
 
-        let len = core::cmp::min(tags.left(), LANGUAGES.len() - idx - 1);
+        let len = core::cmp::min(tags.left(), LANGUAGES.len() - idx);
         for i in 0..len {
             if LANGUAGES[idx + i].language != LANGUAGES[idx].language {
                 break;
